@@ -19,6 +19,15 @@ def run(ctx):
         ops = {l.split()[0] for l in lines}
         return bool(ops & {'insr', 'fromv', 'asgv', 'rngc'}) and bool(ops & {'mrg', 'xfer'})
     SC.run(ctx, scommon.flat_cfgs(ctx.tier), lambda rng, cfg, k: S.gen_history(rng, cfg, 40), n, nontrivial=nontrivial, label='C03 history')
+    # a FixedCapacityVector underneath that is exactly as large as the key domain: every operation whose *result* fits must succeed
+    # (merge, single insertions, node transfers never need more room than the union); the bulk paths, which append before they
+    # deduplicate, are left out here
+    tight = [S.SetCfg('flat', cmp='less', uvec='fixed', ucap=12, pool=3)]
+    if ctx.tier == 'thorough':
+        tight.append(S.SetCfg('flat', cmp='mod', uvec='fixed', ucap=5, pool=3))
+    single = lambda op: op not in ('insr', 'insl', 'rngc', 'fromv', 'asgv', 'steal')
+    SC.run(ctx, tight, lambda rng, cfg, k: S.gen_history(rng, cfg, 50, dom=(12 if cfg.cmp == 'less' else 40), ops_filter=single), n // 2,
+           nontrivial=lambda cfg, lines, obs: any(l.startswith('mrg') for l in lines), label='C03 tight fixed capacity')
     ctx.assume('heterogeneous (transparent) lookups and merge between different comparator types are not exercised by the harness yet')
     ctx.assume('bulk paths are modelled at specification level (stable sort + stable merge + keep-first unique = one-by-one insertion)')
 
